@@ -20,6 +20,10 @@ What is enumerated (exhaustively within the bound, no sampling):
               (= every torn write).  Every image is handed to a freshly constructed node (real recovery).
      fault    OSError(EIO) from every mutating file-system operation (open, each write, close, rename, remove, mkdir)
               of every step; the history continues.
+     hardware the same enumeration (plain configuration; configured values in `construct`) on two module shapes with a
+              simulated controller that holds p and q, loses them at a power cycle (factory values after every start and
+              before loadParameters()) and, inside a write method, reports settings back: those of the parameters restored
+              LATER, or all of them.
   construct   the same crash / fault enumeration for start-up itself on 5 initial disk images (nothing, directory only,
               valid file, valid file + stale partial .tmp, outdated file).
   corrupt     a stored file is damaged: missing file / directory, truncation at every byte, bit flips (bit 0 and 5 of
@@ -30,7 +34,7 @@ What is enumerated (exhaustively within the bound, no sampling):
               datatype kind x persistent flag {auto, on} one module class with a persistent parameter of every shape
               {writable, readonly} x {own write_<p> method, none}; run-1 configuration {nothing, everything} x EVERY subset
               of the four shapes configured in run 2 x configured value {differs from, equals} the stored one; observed
-              right after construction and after writeInitParams().
+              right after construction, after writeInitParams() and after a following loadParameters().
   reload      the stored file is damaged / removed / replaced behind the back of a RUNNING node that has saved its values
               (every damage of the `corrupt` list), then every combination of [value change] loadParameters() / no
               loadParameters() [value change {p by client, r by driver, q by driver}] saveParameters() (thorough: all;
@@ -40,13 +44,17 @@ What is enumerated (exhaustively within the bound, no sampling):
               client (wire form) and by the driver (native form) -> saved -> loaded by a fresh node.
 
 Oracle (from the statement, nothing more):
-  S1 after a crash, and after a failed save, the file is absent-as-before or parses and equals a snapshot that the
-     fault-free run has on disk at a quiescent moment of that step (before the step, after it, or between two saves of
-     one step); never empty / partial.  A node constructed on the image starts and holds exactly the values a node
+  S1 after a crash, and after a failed save, the file is absent-as-before or parses and equals the snapshot the
+     fault-free run has on disk before the step or after it, or a snapshot written between two saves of the step that
+     restores the same values as one of those two (so never the factory value a power-cycled controller reports while the
+     stored values are still being written back); never empty / partial.  A node constructed on the image starts and holds exactly the values a node
      constructed on that clean snapshot holds (leftovers such as a partial .tmp do not matter).
   S2 after an injected error, at the next moment a save is due the file equals the current values.
   S3 load(save(v)) == v: a node constructed on the saved file (configuration giving nothing) holds == values and
      exports the same wire value, and that value denotes what the client sent (catalogue reference model).
+  S4 (within a run) after loadParameters() a configured parameter never holds the value that was stored BEFORE this
+     start-up, unless this run assigned that value again; after a restart + loadParameters() with nothing changed in
+     between, configured parameters hold the configured values and all others the stored ones.
   S4 a configured value wins over the stored one - for every parameter shape and every configured subset; "the
      configured value" is what the same configuration gives on an empty disk; parameters not configured hold the stored
      value (S3).
@@ -150,12 +158,14 @@ def env():
 
 KINDS_HW = [
     # module shape "simulated hardware": p and q live in a controller that loses them at a power cycle (factory values
-    # after every start and before loadParameters()); every write method makes the controller report its settings back
-    ('hw', ('double', 0.0, 10.0, None, None)),
+    # after every start and before loadParameters()); a write method makes the controller report settings back:
+    # those of the parameters restored LATER (writeDict order p, q), or all of them
+    ('hw-later', ('double', 0.0, 10.0, None, None), 'later'),
+    ('hw-all', ('double', 0.0, 10.0, None, None), 'all'),
 ]
 
 
-def _hw_attrs(P, spec):
+def _hw_attrs(P, spec, readback):
     from frappy.datatypes import IntRange
     factory = {'p': T.build(spec).default, 'q': 2}
 
@@ -177,7 +187,8 @@ def _hw_attrs(P, spec):
 
     def write_q(self, value):
         self.hw['q'] = value
-        self.read_p()
+        if readback == 'all':
+            self.read_p()
         return value
 
     return {
@@ -189,7 +200,7 @@ def _hw_attrs(P, spec):
 
 
 class Kind:
-    def __init__(self, name, spec, hw=False):
+    def __init__(self, name, spec, hw=None):
         e = env()
         P = e['P']
         from frappy.modules import Module
@@ -205,8 +216,9 @@ class Kind:
             'n': Parameter('n', IntRange(0, 9), default=0, readonly=False),
             'write_p': lambda self, value: value,
         }
+        self.shape = 'no-hardware' if not hw else 'hardware-reports-back-' + hw
         if hw:
-            attrs.update(_hw_attrs(P, spec))
+            attrs.update(_hw_attrs(P, spec, hw))
         self.cls = type('M_' + name, (P.PersistentMixin, Module), attrs)
         # two client (wire) and two driver (native) values, different from the default and from each other
         def complete(vals):     # configured struct values must name every member (that is C10's business, not ours)
@@ -247,9 +259,9 @@ def kinds(tier=None):
     for name, spec in table:
         if name not in e['kinds']:
             e['kinds'][name] = Kind(name, spec)
-    for name, spec in KINDS_HW:
+    for name, spec, readback in KINDS_HW:
         if name not in e['kinds']:
-            e['kinds'][name] = Kind(name, spec, hw=True)
+            e['kinds'][name] = Kind(name, spec, hw=readback)
     return e['kinds']
 
 
@@ -756,7 +768,7 @@ class HistoryCheck:
         if data in self.foreign.get(cc.label, ()):
             rc, ends = self.foreign[cc.label][data]
             return ('target-intermediate-snapshot', (
-                'C17:crash:before-@:target-intermediate-snapshot-restores-neither-old-nor-new-values',
+                f'C17:restore:{self.K.shape}:intermediate-snapshot-restores-neither-old-nor-new-values',
                 f'the file holds the complete but intermediate snapshot {data!r}: a restart gives {rc[1:2]!r}; the snapshot '
                 f'before this step gives {ends[0][1:2]!r}, the one after it {ends[1][1:2]!r}'))
         if data not in allowed:
@@ -801,6 +813,14 @@ class HistoryCheck:
         bad = [content(img) for img in o['images'] if content(img) not in allowed]
         part.outcomes[f'fault:{opname(op.kind)}:{"raised" if "exc" in o else "silent"}:'
                       f'{"ok" if not bad else "target-damaged"}'] += 1
+        if bad and bad[0] in self.foreign.get(k, ()):
+            rc, ends = self.foreign[k][bad[0]]
+            part.violation(f'C17:restore:{self.K.shape}:intermediate-snapshot-restores-neither-old-nor-new-values',
+                           self.case(check='fault', op=i),
+                           f'{self.describe()}: OSError injected at {op.brief()} (step {k}); afterwards the file holds the '
+                           f'intermediate snapshot {bad[0]!r}: a restart gives {rc[1:2]!r}; the snapshot before this step gives '
+                           f'{ends[0][1:2]!r}, the one after it {ends[1][1:2]!r}')
+            return
         if bad:
             cls = classify(bad[0], allowed)
             part.violation(f'C17:fault:OSError-at-{opname(op.kind)}:target-{cls}', self.case(check='fault', op=i),
@@ -1586,12 +1606,13 @@ def run(ctx):
     names = kind_names(ctx.tier)
     A = alphabet()
     only = getattr(ctx, 'only', None) or set()
-    hnames = names + [n for n, _ in KINDS_HW]      # the crash / fault enumerations also run on the simulated-hardware shape
+    hw = [k[0] for k in KINDS_HW]      # the crash / fault enumerations also run on the simulated-hardware shapes
     if not only or 'construct' in only:
-        ctx.pmap(shard_fn, [('construct', k, c) for k in hnames for c in ('plain', 'given')], name='construct')
+        ctx.pmap(shard_fn, [('construct', k, c) for k in names + hw for c in ('plain', 'given')], name='construct')
     if not only or 'history' in only:
-        shards = [('history', k, c, g, first) for k in hnames for c in ('plain', 'given') for g in ('normal', 'pending')
-                  for first in A if not (g == 'pending' and first == ['init'])]
+        # (the hardware shapes with the plain configuration only: configured values on them are in `construct`)
+        shards = [('history', k, c, g, first) for k in names + hw for c in ('plain', 'given') for g in ('normal', 'pending')
+                  for first in A if not (g == 'pending' and first == ['init']) and not (k in hw and c == 'given')]
         ctx.pmap(shard_fn, shards, name='history')
     if not only or 'corrupt' in only:
         ctx.pmap(shard_fn, [('corrupt', k, c, lo, lo + 2) for k in names for c in ('plain', 'given') for lo in (0, 2, 4, 6)],
@@ -1609,11 +1630,12 @@ def run(ctx):
         f'writeInitParams, writes still pending}} x all histories of {b["L"]} steps over 9 letters (+ fixed epilogue); per history '
         'one recorded dry run; (a)+(b) a process crash before every file-system operation and after the last x every prefix of '
         'the unflushed bytes of the open handle (= every torn write), each distinct image recovered by a freshly constructed real '
-        'node; (c) OSError(EIO) from every mutating operation of every step, history continued.  [construct] the same for start-up '
+        'node; (c) OSError(EIO) from every mutating operation of every step, history continued; the same on 2 simulated-hardware '
+        'shapes (controller loses p, q at a power cycle; a write reports back the settings restored later / all settings).  [construct] the same for start-up '
         'on 5 initial disks.  [corrupt] every listed damage of a stored file x {plain, configured}.  [restart] module kinds x '
         'persistent flag {auto, on} x parameter shapes {writable, readonly} x {own write method, none} x run-1 configuration '
         '{nothing, everything} x every subset of the shapes configured at the restart x configured value {differs from, equals} '
-        'the stored one, observed at construction and after writeInitParams.  [reload] module kinds x every listed damage applied '
+        'the stored one, observed at construction, after writeInitParams and after a following loadParameters.  [reload] module kinds x every listed damage applied '
         'to the file of a running node x {loadParameters, none} x value change {none, p by client, r by driver, q by driver} '
         '(thorough: also a change before the reload) x saveParameters, judged after a reload that read the damage.  '
         '[roundtrip] type catalogue x '
@@ -1624,7 +1646,7 @@ def run(ctx):
     ctx.coverage.update(
         bound_completed=f'history length {b["L"]} (+epilogue), every fs operation x every unflushed prefix, every mutating fs '
                         f'operation failing once; bit flips {list(b["flipbits"])} of every byte; catalogue depth <= {b["rt_depth"]}',
-        module_kinds=names, alphabet=[' '.join(map(str, a)) for a in A], initial_disks=list(INIT_IMAGES))
+        module_kinds=names + hw, alphabet=[' '.join(map(str, a)) for a in A], initial_disks=list(INIT_IMAGES))
     ctx.assume(
         'crash model: process crash - completed file-system operations are on disk in program order, a file open for writing '
         'holds its flushed bytes plus any prefix of the unflushed ones; power-loss reordering of unsynced pages is NOT modelled',
